@@ -13,9 +13,15 @@
 EXTENDS Integers, Sequences, FiniteSets, TLC, Json
 VARIABLE sc
 Vers == {"1b1", "1b2", "1b3"}
-Base(v) == [ver |-> v, t |-> "mid", life |-> 3600, method |-> "GET", reqhdr |-> "none", resphdr |-> "none", cc |-> {}, ccform |-> "one",
+Base(v) == [ver |-> v, win |-> "fixed", decoy |-> <<"none", "none">>, t |-> "mid", life |-> 3600, method |-> "GET", reqhdr |-> "none", resphdr |-> "none", cc |-> {}, ccform |-> "one",
             expireshdr |-> FALSE, status |-> 200, vurl |-> "same", ct |-> TRUE, integ |-> "right"]
-Options == [ t |-> {"date-1s", "date-1ns", "date", "date+1s", "expires-1s", "expires", "expires+1ns", "expires+1s"},
+\* win: where the signed window lies ("present" = around the verifying process's own clock, which is NOT an input);
+\* t: the instant handed to the verifier, relative to the window or a fixed sentinel (zero = the zero time.Time)
+\* decoy: a second member of the Signature list, before or after the genuine one, that fails exactly one per-signature condition
+DecoyKinds == {"overlong", "expired", "future", "otherorigin", "integrity", "nodate", "badsig", "certsha", "unparsable-params"}
+Options == [ win |-> {"present"},
+             decoy |-> { <<k, pos>> : k \in DecoyKinds, pos \in {"first", "last"} },
+             t |-> {"date-1s", "date-1ns", "date", "date+1s", "expires-1s", "expires", "expires+1ns", "expires+1s", "zero", "epoch", "farfuture"},
              life |-> {1, 604799, 604800, 604801},
              method |-> {"HEAD", "POST", "get", "PUT"},
              reqhdr |-> {"cookie", "Cookie", "COOKIE", "authorization", "Proxy-Authorization", "sec-websocket-key", "x-harmless", "cookies"},
@@ -57,7 +63,7 @@ Ok(s) == Window(s) /\ Lifetime(s) /\ SameOrigin(s) /\ Method(s) /\ NoStateful(s)
 RECURSIVE SetToSeq(_)
 SetToSeq(T) == IF T = {} THEN <<>> ELSE LET x == CHOOSE y \in T : TRUE IN <<x>> \o SetToSeq(T \ {x})
 Init == sc = Base("1b3")
-KindSeq == <<"t", "life", "method", "reqhdr", "resphdr", "cc", "ccform", "expireshdr", "status", "vurl", "ct", "integ">>
+KindSeq == <<"win", "decoy", "t", "life", "method", "reqhdr", "resphdr", "cc", "ccform", "expireshdr", "status", "vurl", "ct", "integ">>
 ASSUME {KindSeq[i] : i \in 1..Len(KindSeq)} = Kinds
 Next == /\ sc = Base("1b3")
         /\ \E v \in Vers :
@@ -71,6 +77,7 @@ Spec == Init /\ [][Next]_sc
 \* the baseline is accepted; every condition is independently necessary (some single deviation violates it alone)
 BaselineOk == \A v \in Vers : Ok(Base(v))
 EachConditionNecessary ==
+  /\ ~Ok(Set1(Set1(Base("1b3"), "win", "present"), "t", "zero")) /\ ~Ok(Set1(Base("1b3"), "t", "epoch")) /\ Ok(Set1(Base("1b3"), "win", "present"))
   /\ ~Ok(Set1(Base("1b3"), "t", "date-1ns")) /\ ~Ok(Set1(Base("1b3"), "t", "expires+1ns")) /\ Ok(Set1(Base("1b3"), "t", "expires"))
   /\ ~Ok(Set1(Base("1b2"), "life", 604801)) /\ Ok(Set1(Base("1b2"), "life", 604800))
   /\ ~Ok(Set1(Base("1b1"), "method", "POST")) /\ Ok(Set1(Base("1b3"), "method", "POST")) /\ ~Ok(Set1(Base("1b2"), "method", "get"))
@@ -85,6 +92,8 @@ EachConditionNecessary ==
   /\ ~Ok(Set1(Base("1b3"), "status", 599))
 \* the spelling of the Cache-Control value never matters
 SpellingIrrelevant == \A v \in Vers : \A c \in Options.cc : \A f \in Options.ccform : Ok(Set1(Set1(Base(v), "cc", c), "ccform", f)) = Ok(Set1(Base(v), "cc", c))
+\* a list member that fails never decides: the verdict is the one of the list without it
+DecoyIrrelevant == \A v \in Vers : \A d \in Options.decoy : Ok(Set1(Base(v), "decoy", d)) = Ok(Base(v))
 \* evaluated once, in the initial state (it quantifies over the option sets itself)
-Design == (sc = Base("1b3")) => (BaselineOk /\ EachConditionNecessary /\ SpellingIrrelevant)
+Design == (sc = Base("1b3")) => (BaselineOk /\ EachConditionNecessary /\ SpellingIrrelevant /\ DecoyIrrelevant)
 =============================================================================
